@@ -88,6 +88,8 @@ class Gen:
         inner = []
         if d > 0:
             inner = [("cast", 5), ("and", 3), ("or", 3), ("xor", 2), ("shl", 4), ("ite", 2), ("let", 1), ("boolcast", 1)]
+            if is_signed(ty):
+                inner += [("shr", 3)]       # arithmetic shift
             if not is_signed(ty):
                 inner += [("shr", 4), ("not", 2), ("add", 2), ("sub", 3), ("mul", 1)]
                 if ty != "usize":
